@@ -120,6 +120,7 @@ struct Model {
     held: BTreeMap<(usize, usize, u32), Held>,          // (investor, issuer, topic)
     revoked: BTreeSet<(usize, usize, u32, u8, u64)>,    // (issuer, investor, topic, data, valid_until) — revocation is per claim data
     nonce: BTreeMap<(usize, usize, u32), u32>,          // (issuer, investor, topic)
+    revoked_at: BTreeMap<(usize, usize, u32, u8, u64), u64>, // when each revocation was switched on (reach probe only)
     now: u64,
 }
 impl Model {
@@ -166,7 +167,7 @@ impl Check for Identity {
         true
     }
     fn probes(&self, _prop: &str) -> std::vec::Vec<&'static str> {
-        vec!["probe.rejected", "probe.required_topic_without_issuer", "probe.verified", "probe.verified_with_some_issuer_lacking_claim", "probe.verify_exactly_at_valid_until", "probe.verify_one_before_valid_until"]
+        vec!["probe.rejected", "probe.required_topic_without_issuer", "probe.verified", "probe.verified_with_some_issuer_lacking_claim", "probe.verify_exactly_at_valid_until", "probe.verify_one_before_valid_until", "probe.verify_with_unexpired_claim_revoked_long_ago"]
     }
     fn generate(&self, rng: &mut Rng, tier: Tier) -> (Cfg, std::vec::Vec<Step>) {
         let cfg = Cfg { investors: 2, issuers: 2 + rng.below(2) as usize };
@@ -178,7 +179,31 @@ impl Check for Identity {
         // a claim from only one of them — so that "any trusted issuer suffices" is exercised from step 6 on
         let mut deadlines: std::vec::Vec<u64> = vec![]; // offsets from T0 of valid_until of issued claims
         let mut elapsed: u64 = 0;
-        if rng.chance(60) {
+        if rng.chance(15) {
+            // directed opening "state set long ago": a long-lived claim is verified, then invalidated in one of three ways
+            // (revoked / nonce bumped / key removed) or left alone, then more than 31 days pass without any call, then verify
+            let t = rng.below(4) as u32;
+            topics.insert(t);
+            let i = rng.below(cfg.issuers as u64) as usize;
+            let data = rng.below(3) as u8;
+            steps.extend([
+                Step::AddTopic { t },
+                Step::AddIssuer { i, ts: vec![t] },
+                Step::AllowKey { i, key: 0, t },
+                Step::Issue { inv: 0, i, t, key: 0, ttl: 200_000_000, data, tamper: Tamper::None },
+                Step::Verify { inv: 0 },
+            ]);
+            gkeys.insert((i, 0, t));
+            match rng.below(4) {
+                0 => steps.push(Step::Revoke { i, inv: 0, t, data, on: true }),
+                1 => steps.push(Step::Bump { i, inv: 0, t }),
+                2 => { gkeys.remove(&(i, 0, t)); steps.push(Step::RemoveKey { i, key: 0, t }) }
+                _ => {}
+            }
+            let secs = 2_700_005 + rng.below(3) * 5_000_000;
+            elapsed += secs;
+            steps.extend([Step::Verify { inv: 0 }, Step::AdvanceTime { secs }, Step::Verify { inv: 0 }]);
+        } else if rng.chance(60) {
             let t = rng.below(4) as u32;
             topics.insert(t);
             let (a, b) = if rng.chance(50) { (0, 1) } else { (1, 0) };
@@ -215,7 +240,11 @@ impl Check for Identity {
                     let gv: std::vec::Vec<(usize, usize, u32)> = gkeys.iter().cloned().collect();
                     if !gv.is_empty() && rng.chance(75) { let g = *rng.pick(&gv); gkeys.remove(&g); Step::RemoveKey { i: g.0, key: g.1, t: g.2 } } else { Step::RemoveKey { i, key: rng.below(2) as usize, t } }
                 }
-                53..=70 => { let ttl = match rng.below(4) { 0 => 10, _ => 100 + rng.below(1000) }; deadlines.push(elapsed + ttl); Step::Issue { inv, i, t, key: rng.below(2) as usize, ttl, data: rng.below(3) as u8, tamper: if rng.chance(20) { *rng.pick(&[Tamper::Sig, Tamper::Data, Tamper::OtherTopic, Tamper::OtherIdentity, Tamper::StaleNonce]) } else { Tamper::None } } }
+                53..=70 => {
+                    // a fifth of the claims are long-lived (years): only those are still unexpired after the long waits the clock
+                    // faults insert, so that revocation, nonce and key state must survive such a wait on their own
+                    let ttl = match rng.below(5) { 0 => 10, 1 => 200_000_000 + rng.below(1000), _ => 100 + rng.below(1000) };
+                    if ttl < 1_000_000 { deadlines.push(elapsed + ttl); } Step::Issue { inv, i, t, key: rng.below(2) as usize, ttl, data: rng.below(3) as u8, tamper: if rng.chance(20) { *rng.pick(&[Tamper::Sig, Tamper::Data, Tamper::OtherTopic, Tamper::OtherIdentity, Tamper::StaleNonce]) } else { Tamper::None } } }
                 71..=73 => Step::RemoveClaim { inv, i, t },
                 74..=78 => Step::Revoke { i, inv, t, data: rng.below(3) as u8, on: rng.chance(70) },
                 79..=81 => Step::Bump { i, inv, t },
@@ -284,7 +313,7 @@ impl Check for Identity {
                         if h.data == *data {
                             let cd = data_of(h.data, T0, h.valid_until);
                             IssuerClient::new(e, &issuers[*i]).revoke(&idents[*inv], t, &cd, on);
-                            if *on { m.revoked.insert((*i, *inv, *t, h.data, h.valid_until)); } else { m.revoked.remove(&(*i, *inv, *t, h.data, h.valid_until)); }
+                            if *on { m.revoked.insert((*i, *inv, *t, h.data, h.valid_until)); m.revoked_at.insert((*i, *inv, *t, h.data, h.valid_until), m.now); } else { m.revoked.remove(&(*i, *inv, *t, h.data, h.valid_until)); }
                             st.hit("fault.claim_revocation_toggled");
                         }
                     }
@@ -342,6 +371,10 @@ impl Check for Identity {
                         if h.1.valid_until == m.now + 1 { st.hit("probe.verify_one_before_valid_until"); }
                     }
                     if m.topics.iter().any(|t| !m.trusted.values().any(|ts| ts.contains(t))) { st.hit("probe.required_topic_without_issuer"); }
+                    // a still unexpired, revoked claim of this investor whose revocation is older than 31 days of ledgers
+                    if m.held.iter().any(|(k, h)| k.0 == *inv && m.now < h.valid_until && m.revoked.contains(&(k.1, k.0, k.2, h.data, h.valid_until)) && m.revoked_at.get(&(k.1, k.0, k.2, h.data, h.valid_until)).map(|at| m.now - at > 2_700_000).unwrap_or(false)) {
+                        st.hit("probe.verify_with_unexpired_claim_revoked_long_ago");
+                    }
                     if g != x {
                         let orphan: std::vec::Vec<u32> = m.topics.iter().filter(|t| !m.trusted.values().any(|ts| ts.contains(t))).cloned().collect();
                         let disc = if g && !orphan.is_empty() { "topic-without-issuer" } else if g { "accepted" } else { "rejected" };
